@@ -528,6 +528,11 @@ func c08() {
 			kc.strace = false
 			run.Count("children_with_identical_preload_on_other_thread", 1)
 		}
+		if i%11 == 6 && !kc.cc.KillThreadProbe && !kc.cc.PreloadOnOtherThread {
+			kc.cc.StraceInject = vlib.UnamePoke(vlib.FakeKernelReleases[(i/11)%len(vlib.FakeKernelReleases)])
+			kc.strace = true
+			run.Count("children_seeing_a_faked_kernel_release", 1)
+		}
 		kc.desc = fmt.Sprintf("case %d %s", i, kc.desc)
 		judgeEnforce(run, o, kc, st, "")
 		if i == 1 || i == 2 {
